@@ -642,6 +642,13 @@ func (fx *Fx) chanRecv(st *State, ch Val, n ast.Node) (Val, Val) {
 	// a value received from a closed, drained channel is the zero value
 	st.assume(fmt.Sprintf("(=> (not %s) (= %s %s))", ok, v, c.zero(el)))
 	st.logEvent(evTerm("Recv", ch.T, c.box(rv), "", ""))
+	if _, isNamedT := types.Unalias(el).(*types.Named); isNamedT && fx.spec != nil && len(fx.spec.RecvInv) > 0 {
+		if _, isIf := types.Unalias(el).Underlying().(*types.Interface); !isIf {
+			// a channel of a concrete message type: the declared message invariant is assumed of whatever it delivers
+			// (which includes the assumption that such a channel is not closed while it is being received from)
+			fx.assumeRecvInvIf(st, rv, el, n.Pos(), "true")
+		}
+	}
 	return rv, Val{T: ok, S: "Bool", GT: types.Typ[types.Bool]}
 }
 
